@@ -119,6 +119,7 @@ class PyInterp:
         generated code even when a select would not need them.)"""
         vals = {}
         raised = [False]
+        tainted = [False]
         POISON = object()
 
         for e in walk(root, self.Expr):
@@ -133,10 +134,13 @@ class PyInterp:
             except _Poisoned:
                 vals[id(e)] = POISON
             except Tainted:
+                tainted[0] = True
                 vals[id(e)] = POISON
             except self.ERRORS:
                 raised[0] = True
                 vals[id(e)] = POISON
+        if not raised[0] and tainted[0]:
+            return None  # inconclusive: a node downstream of an ambiguous one could not be evaluated
         return raised[0]
 
     def bind(self, apply_expr, args):
@@ -172,6 +176,10 @@ class PyInterp:
         if k == "positive":
             return +a
         if k == "absolute":
+            if isinstance(a, complex) and (a.real != a.real or a.imag != a.imag) and not (math.isinf(a.real) or math.isinf(a.imag)):
+                # CPython <= 3.12: abs(complex) with a NaN part returns NaN without resetting errno and then
+                # tests errno, so it raises OverflowError iff an unrelated earlier libm call left ERANGE behind
+                raise Tainted()
             return abs(a)
         if k == "real":
             return a.real
